@@ -43,6 +43,12 @@ def explore_projects(tier, seed):
         changed += any(r["runs"][0]["tree"].get(f) != d for f, d in r["files"].items())
         for sig, detail in judge_project(r):
             cands.setdefault(sig, (r["codemod"], detail))
+    # the same invocation of SEVERAL codemods again on its own output (ordered triples shared with C09)
+    triples, _, _ = seqspace.explore_triples(tier, seed)
+    tcands = {}
+    for ks, rec in sorted(triples.items()):
+        for sig, detail in judge_project({"codemod": ">".join(ks), "runs": [rec["batch"], rec["batch_rerun"]]}):
+            tcands.setdefault(sig, (ks, detail))
     known_open = {k["signature"] for k in core.load_known() if k["property"] == PROP and k["status"] == "open"}
     violations = []
     for sig, (k, detail) in sorted(cands.items()):
@@ -51,7 +57,16 @@ def explore_projects(tier, seed):
             if not all(sig in a for a in again):
                 continue
         violations.append(Violation(PROP, sig, detail[:600], {"project": True, "codemod": k, "sig": sig}, 1))
-    return {"codemods": len(cms), "runs": 2 * len(cms), "projects_changed_by_first_run": changed}, violations
+    for sig, (ks, detail) in sorted(tcands.items()):
+        if sig not in known_open:
+            again = []
+            for _ in range(2):
+                rec = seqspace.seq_job_cli(ks)
+                again.append({s for s, _ in judge_project({"codemod": ">".join(ks), "runs": [rec["batch"], rec["batch_rerun"]]})})
+            if not all(sig in a for a in again):
+                continue
+        violations.append(Violation(PROP, sig, detail[:600], {"project": True, "seq": list(ks), "sig": sig}, 3))
+    return {"codemods": len(cms), "runs": 2 * len(cms) + len(triples), "projects_changed_by_first_run": changed, "multi_codemod_invocations_rerun": len(triples)}, violations
 
 
 def explore(tier, seed):
@@ -71,6 +86,10 @@ def explore(tier, seed):
 
 
 def replay(rp):
+    if rp.get("project") and rp.get("seq"):
+        rec = seqspace.seq_job_cli(tuple(rp["seq"]))
+        found = judge_project({"codemod": ">".join(rp["seq"]), "runs": [rec["batch"], rec["batch_rerun"]]})
+        return (rp["sig"] not in {s for s, _ in found}), "\n".join(f"{s}: {d}" for s, d in found) or "second run changes nothing"
     if rp.get("project"):
         found = judge_project(seqspace.rerun_job_cli(rp["codemod"]))
         return (rp["sig"] not in {s for s, _ in found}), "\n".join(f"{s}: {d}" for s, d in found) or "second run changes nothing"
